@@ -44,6 +44,8 @@ def seq6(v):
 
 
 def run(ctx):
+    from xfabsa import numeric as _N
+    _N.alias_rule(ctx, 'C13', ['xfab/tools.py', 'xfab/laue.py'])
     ctx.rule("b2e", "b_to_epsilon(_old) == sym(T) - I with T = B0.inv(B) (resp. A(B).A0inv), order e11,e12,e13,e22,e23,e33")
     ctx.rule("e2b", "epsilon_to_b(_old): the triangular matrix built solves sym(B0.X) = eps + I (resp. sym(X.A0inv)), and the result is inv(X) (resp. B of the cell of X)")
     ctx.rule("zero", "zero strain gives the unstrained matrix: B0.X == I at eps = 0")
